@@ -136,6 +136,79 @@ package fix
 //@   forall j int
 //@   ensures[C17,C02] @own len(res) == len(g.items) && imp(0 <= j && j < len(res), nth(res, j) == nth(g.items, j))
 
+// ---- accessors the generated setters and getters are built from (C17, C02) ------------
+//@ func (c *Component) Set(id int, v Item)
+//@   requires c != nil && 0 <= id && id < len(c.items)
+//@   modifies SEQ
+//@   forall j int
+//@   ensures[C17,C02] @placed len(c.items) == old(len(c.items)) && nth(c.items, id) == v
+//@   ensures[C17,C02] @others imp(0 <= j && j < len(c.items) && j != id, nth(c.items, j) == old(nth(c.items, j)))
+//@ func (c *Component) SetField(id int, v Item)
+//@   requires c != nil && 0 <= id && id < len(c.items)
+//@   modifies SEQ
+//@   forall j int
+//@   ensures[C17,C02] @placed len(c.items) == old(len(c.items)) && nth(c.items, id) == v
+//@   ensures[C17,C02] @others imp(0 <= j && j < len(c.items) && j != id, nth(c.items, j) == old(nth(c.items, j)))
+//@ func (c *Component) SetGroup(id int, v *Group)
+//@   requires c != nil && 0 <= id && id < len(c.items)
+//@   modifies SEQ
+//@   forall j int
+//@   ensures[C17,C02] @placed len(c.items) == old(len(c.items)) && nth(c.items, id) == v
+//@   ensures[C17,C02] @others imp(0 <= j && j < len(c.items) && j != id, nth(c.items, j) == old(nth(c.items, j)))
+//@ func (c *Component) SetComponent(id int, v *Component)
+//@   requires c != nil && 0 <= id && id < len(c.items)
+//@   modifies SEQ
+//@   forall j int
+//@   ensures[C17,C02] @placed len(c.items) == old(len(c.items)) && nth(c.items, id) == v
+//@   ensures[C17,C02] @others imp(0 <= j && j < len(c.items) && j != id, nth(c.items, j) == old(nth(c.items, j)))
+//@ func (c *Component) Get(id int) (res Item)
+//@   requires c != nil && 0 <= id && id < len(c.items)
+//@   pure
+//@   ensures[C17,C02] res == nth(c.items, id)
+//@ func (c *Component) Items() (res Items)
+//@   requires c != nil
+//@   pure
+//@   ensures[C17,C02] res == c.items
+//@ func (c *Component) AsComponent() (res *Component)
+//@   pure
+//@   ensures[C17,C02] res == c
+//@ func NewComponent(items ...Item) (res *Component)
+//@   ensures[C17,C02] res != nil && fresh(res) && res.items == items
+//@ func (msg *Message) Get(id int) (res Item)
+//@   requires msg != nil && 0 <= id && id < len(msg.body)
+//@   pure
+//@   ensures[C17,C02] res == nth(msg.body, id)
+//@ func (msg *Message) Set(id int, item Item) (res *Message)
+//@   requires msg != nil && 0 <= id && id < len(msg.body)
+//@   modifies SEQ
+//@   forall j int
+//@   ensures[C17,C02] @placed res == msg && len(msg.body) == old(len(msg.body)) && nth(msg.body, id) == item
+//@   ensures[C17,C02] @others imp(0 <= j && j < len(msg.body) && j != id, nth(msg.body, j) == old(nth(msg.body, j)))
+//@ func (msg *Message) SetHeader(header *Component) (res *Message)
+//@   requires msg != nil
+//@   modifies msg.header
+//@   ensures[C17,C02] res == msg && msg.header == header
+//@ func (msg *Message) SetBody(body ...Item) (res *Message)
+//@   requires msg != nil
+//@   modifies msg.body
+//@   ensures[C17,C02] res == msg && msg.body == body
+//@ func (msg *Message) SetTrailer(trailer *Component) (res *Message)
+//@   requires msg != nil
+//@   modifies msg.trailer
+//@   ensures[C17,C02] res == msg && msg.trailer == trailer
+//@ func (msg *Message) Body() (kvs Items)
+//@   requires msg != nil
+//@   pure
+//@   ensures[C17,C02] kvs == msg.body
+//@ func (msg *Message) Header() (res *Component)
+//@   requires msg != nil
+//@   pure
+//@   ensures[C17,C02] res == msg.header
+//@ func (msg *Message) Trailer() (res *Component)
+//@   requires msg != nil
+//@   pure
+//@   ensures[C17,C02] res == msg.trailer
+
 // ---- checksum (C01, C03) ---------------------------------------------------------
 //@ spec bsum(s string) int
 //@   unfold bsum_empty(): bsum("") == 0
